@@ -17,10 +17,10 @@ func init() {
 	run.Register(&run.Prop{
 		ID:    "C12",
 		Title: "Aspect-preserving viewBox placement fits or fills and honours alignment",
-		Rule:  "cases are PRNG-chosen (viewBox, target size, alignment) tuples with sizes log-uniform over 1e-4..1e6 (two in three) or with box and target magnitudes anywhere in 1e-25..1e28 (one in three), plus a fixed boundary list; a case is non-trivial when the target aspect differs from the viewBox aspect by more than 1% (meet and slice then differ); distinctness by hash of the argument bits",
+		Rule:  "cases are PRNG-chosen (viewBox, target size, alignment) tuples with sizes log-uniform over 1e-4..1e6 (two in three) or with box and target magnitudes anywhere in 1e-25..1e28, or from the edges of the float32 range (aspect ratios that overflow float32, boxes a few subnormal steps wide, targets above 1.7e38), plus a fixed boundary list; a case is non-trivial when the target aspect differs from the viewBox aspect by more than 1% (meet and slice then differ); distinctness by hash of the argument bits",
 		Assumptions: []string{
 			"float32 rounding allowance: sizes within 1e-5 relative, positions within 1e-5 of max(target, size) per dimension",
-			"viewBox width/height and target sizes finite, positive; aspect ratios within 1e-10..1e10 (1e-7..1e7 for the wide-magnitude cases) so that every correct result is a finite float32",
+			"a slice is not judged when its correct size exceeds the float32 range, nor when the box's aspect ratio is itself not a normal float32 (more than 3.4e38:1; the functions form that quotient in float32 first); aspect ratios of subnormal results are not judged", "viewBox width/height and target sizes finite, positive; aspect ratios within 1e-10..1e10 (1e-7..1e7 for the wide-magnitude cases) so that every correct result is a finite float32",
 		},
 		Subs: []*run.Sub{
 			{
@@ -42,7 +42,7 @@ func init() {
 				},
 				Run:  c12Random,
 				Rule: "log-uniform sizes over ten decades, origins anywhere, alignments {0,.5,1} or uniform; 1/5 square boxes, 1/7 equal aspect, 1/11 aspect equal up to 1 ulp",
-				Min:  map[string]int64{"meet_width_limited": 1000, "meet_height_limited": 1000, "align_interior": 1000, "equal_aspect": 1000, "wide_magnitudes": 100000, "cross_product_outside_float32": 10000},
+				Min:  map[string]int64{"meet_width_limited": 1000, "meet_height_limited": 1000, "align_interior": 1000, "equal_aspect": 1000, "wide_magnitudes": 100000, "cross_product_outside_float32": 10000, "extreme_aspect_ratios": 50000, "subnormal_boxes": 50000, "targets_in_the_top_octave": 50000},
 			},
 		},
 	})
@@ -88,6 +88,10 @@ func c12Random(c *run.Ctx, idx uint64) {
 	// 1e-6..1e6 so that every correct result is representable): products such
 	// as dx*height then leave the float32 range although every quotient the
 	// computation needs is an ordinary number.
+	if r.Chance(1, 6) {
+		c12Extreme(c, r)
+		return
+	}
 	wide := r.Chance(1, 3)
 	if wide {
 		mv, mt := r.LogUniform(1e-25, 1e28), r.LogUniform(1e-25, 1e28)
@@ -161,6 +165,51 @@ func c12Random(c *run.Ctx, idx uint64) {
 	c12Check(c, vb, dx, dy, ax, ay)
 }
 
+// c12Extreme draws from the edges of the float32 range, where every input is
+// still a finite positive number: boxes whose aspect ratio itself overflows or
+// underflows float32, boxes a few subnormal steps wide, targets in the top
+// octave (sums of two sizes overflow), with the alignment constants.
+func c12Extreme(c *run.Ctx, r *run.Rng) {
+	var vb ivg.ViewBox
+	dx, dy := float32(r.LogUniform(1e-3, 1e4)), float32(r.LogUniform(1e-3, 1e4))
+	switch r.Intn(3) {
+	case 0:
+		w, h := float32(r.LogUniform(1e-38, 1e38)), float32(r.LogUniform(1e-38, 1e38))
+		vb = ivg.ViewBox{MaxX: w, MaxY: h}
+		c.Count("extreme_aspect_ratios", 1)
+	case 1:
+		u := float32(math.SmallestNonzeroFloat32)
+		ox, oy := float32(r.Intn(12))*u, float32(r.Intn(12))*u
+		vb = ivg.ViewBox{MinX: ox, MinY: oy, MaxX: ox + float32(r.Range(1, 20))*u, MaxY: oy + float32(r.Range(1, 20))*u}
+		c.Count("subnormal_boxes", 1)
+	default:
+		vb = ivg.DefaultViewBox
+		if r.Bool() {
+			vb = ivg.ViewBox{MinX: 0, MinY: 0, MaxX: float32(r.Range(1, 100)), MaxY: float32(r.Range(1, 100))}
+		}
+		dx, dy = float32(r.Uniform(1.7e38, 3.4e38)), float32(r.Uniform(1.7e38, 3.4e38))
+		if r.Bool() {
+			dx = float32(r.LogUniform(1, 1e38))
+		}
+		c.Count("targets_in_the_top_octave", 1)
+	}
+	sw, sh := vb.MaxX-vb.MinX, vb.MaxY-vb.MinY
+	if !(sw > 0 && sh > 0) || math.IsInf(float64(dx), 0) || math.IsInf(float64(dy), 0) {
+		return
+	}
+	// a quotient that is itself subnormal has lost most of its digits: what the
+	// functions then return is right only to that precision (not judged)
+	if q := sw / sh; q != 0 && q < 1.1754944e-38 {
+		c.Count("skipped_subnormal_aspect_ratio", 1)
+		return
+	}
+	ax, ay := float32(r.Pick(0, 1, 2))/2, float32(r.Pick(0, 1, 2))/2
+	if r.Chance(1, 3) {
+		ax, ay = float32(r.F64()), float32(r.F64())
+	}
+	c12Check(c, vb, dx, dy, ax, ay)
+}
+
 func c12Check(c *run.Ctx, vb ivg.ViewBox, dx, dy, ax, ay float32) {
 	sw, sh := vb.Size()
 	desc := func() interface{} {
@@ -195,6 +244,25 @@ func c12Check(c *run.Ctx, vb ivg.ViewBox, dx, dy, ax, ay float32) {
 		}
 		W, H := float64(x1)-float64(x0), float64(y1)-float64(y0)
 		X0, Y0, X1, Y1 := float64(x0), float64(y0), float64(x1), float64(y1)
+		// a slice whose correct size is not a finite float32 has no correct answer
+		if mode == 1 {
+			sw64, sh64 := DX, DX/ar
+			if !((tr < ar) == (mode == 0)) {
+				sw64, sh64 = DY*ar, DY
+			}
+			if sw64 > 3e38 || sh64 > 3e38 {
+				c.Count("slice_result_not_representable", 1)
+				continue
+			}
+			// The functions form the aspect ratio in float32 first. When that
+			// quotient is not a normal number (the box is more than 3.4e38 times wider
+			// than high, or the reverse) a slice is not judged (DESIGN 6.12); the meet
+			// of the same case is, its result never exceeds the target.
+			if q := sw / sh; q == 0 || math.IsInf(float64(q), 0) {
+				c.Count("slice_not_judged_aspect_ratio_not_a_normal_float32", 1)
+				continue
+			}
+		}
 		fail := func(what string) {
 			c.Violate(name+"/"+what, map[string]interface{}{"case": desc(), "got": fmt.Sprint([]float32{x0, y0, x1, y1}), "W": W, "H": H})
 		}
@@ -205,7 +273,7 @@ func c12Check(c *run.Ctx, vb ivg.ViewBox, dx, dy, ax, ay float32) {
 		// (1) aspect ratio preserved. W and H are differences of float32
 		// coordinates, so each carries the rounding of the coordinates
 		// themselves (relative to the offset, not to the size).
-		if W > 0 && H > 0 {
+		if W > 1.2e-38 && H > 1.2e-38 { // a subnormal size has lost the digits a ratio needs
 			slackW := (math.Abs(X0) + math.Abs(X1)) * 1.2e-7 / W
 			slackH := (math.Abs(Y0) + math.Abs(Y1)) * 1.2e-7 / H
 			if e := math.Abs((W/H)/ar - 1); e > rel*4+2*(slackW+slackH) {
